@@ -64,8 +64,16 @@ _BIN = {
 }
 _CMP = {
     ast.Eq: operator.eq, ast.NotEq: operator.ne, ast.Lt: operator.lt, ast.LtE: operator.le, ast.Gt: operator.gt, ast.GtE: operator.ge,
-    ast.In: lambda a, b: a in b, ast.NotIn: lambda a, b: a not in b, ast.Is: operator.is_, ast.IsNot: operator.is_not,
+    ast.In: lambda a, b: a in b, ast.NotIn: lambda a, b: a not in b, ast.Is: lambda a, b: _same(a, b), ast.IsNot: lambda a, b: not _same(a, b),
 }
+
+
+def _same(a, b) -> bool:
+    if isinstance(a, EnumMember) and isinstance(b, EnumMember):
+        return a.enum_ == b.enum_ and a.name_ == b.name_
+    return a is b
+
+
 _SAFE_CALLS = {
     "set": set, "frozenset": frozenset, "tuple": tuple, "list": list, "range": range, "len": len, "int": int, "str": str,
     "bytes": bytes, "min": min, "max": max, "sorted": sorted, "bool": bool, "ord": ord, "chr": chr, "istr": str, "upstr": str,
@@ -115,6 +123,14 @@ class Folder:
         raise NotConst(f"{name} is a {r[0]}")
 
     def enum(self, ci: ClassInfo):
+        k = ("enum", ci.module.rel, ci.qualname)
+        if k in self._memo:
+            return self._memo[k]
+        v = self._enum(ci)
+        self._memo[k] = v
+        return v
+
+    def _enum(self, ci: ClassInfo):
         bases = ci.base_names()
         if not any(b in ("IntEnum", "Enum", "IntFlag", "Flag", "StrEnum") for b in bases):
             raise NotConst(f"class {ci.name} is not an enum")
